@@ -99,7 +99,7 @@ def gossip_plan(chk, tier):
             "sim": (G.consts(Node={"a", "b", "c"}, Key={"k1", "k2"}, MaxVer=4, MaxSlots=3,
                              Writers={"a"}, Features={"leave", "compact", "lose", "expire", "dup"},
                              Budgets={2, 3, 99}), 160, 45),
-            "walks": (120, 70),
+            "walks": (1200, 80),
         }
     return {
         "mc": G.consts(MaxVer=4),
@@ -109,7 +109,7 @@ def gossip_plan(chk, tier):
         "sim": (G.consts(Node={"a", "b", "c"}, Key={"k1", "k2"}, MaxVer=5, MaxSlots=4,
                          Writers={"a", "c"}, Features={"leave", "compact", "lose", "expire", "dup", "shuffle"},
                          Budgets={2, 3, 4, 99}), 2400, 60),
-        "walks": (2500, 90),
+        "walks": (15000, 100),
     }
 
 
@@ -312,7 +312,7 @@ def c17(chk):
                           ["a", "b"], invariants=C17_TRACE_INV)
     chk.nontrivial += st["steps"] - st["by_op"].get("Reset", 0)
     ops = dict(st["by_op"])
-    sched = {"nodes": ["a", "b", "c"], "initKnown": True, "walks": 150 if quick else 3000, "depth": 80,
+    sched = {"nodes": ["a", "b", "c"], "initKnown": True, "walks": 1200 if quick else 15000, "depth": 80,
              "keys": ["k1", "k2", "k3", "k4"], "vals": ["", "x", "y"], "writers": ["a", "b"], "masked": True,
              "crashers": []}
     v, st = run_schedules(chk, sched, "walks", sched["nodes"], invariants=C17_TRACE_INV)
@@ -333,7 +333,9 @@ def c14_plan(tier):
     p = gossip_plan(None, tier)
     if tier == "quick":
         p["mc"] = G.consts(MaxVer=3, Features={"leave", "compact", "lose", "expire"})
-        p["covers"] = [G.consts(Key={"k1"}, MaxVer=3, MaxSlots=1, Features={"leave", "compact", "lose", "expire", "liveness"})]
+        p["covers"] = [G.consts(Key={"k1"}, MaxVer=3, MaxSlots=1),
+                       G.consts(Key={"k1"}, Val={"x"}, MaxVer=1, MaxSlots=1,
+                                Features={"leave", "lose", "expire", "liveness"})]
     else:
         p["mc"] = G.consts(MaxVer=3, Features={"leave", "compact", "lose", "expire", "liveness"})
         p.pop("mc2", None)
@@ -362,3 +364,4 @@ import checks_fd  # noqa: E402,F401
 import checks_rebalance  # noqa: E402,F401
 import checks_auth  # noqa: E402,F401
 import checks_proxy  # noqa: E402,F401
+import checks_life  # noqa: E402,F401
